@@ -1276,6 +1276,7 @@ package adaptation
 //@   ensures [pidsLimit.set] result == nil && u.Linux != nil && u.Linux.Resources != nil && (ures(u).Pids != nil) ==> uledger(r, u).pidsLimit == plugin && reply.Linux.Resources.Pids != nil && reply.Linux.Resources.Pids.Limit == ures(u).Pids.Limit
 //@                    && (old(ownUpdate(r, u)) ==> r.request.update.LinuxResources.Pids != nil && r.request.update.LinuxResources.Pids.Limit == ures(u).Pids.Limit)
 //@   ensures [pidsLimit.keep] u.Linux != nil && u.Linux.Resources != nil && !(ures(u).Pids != nil) ==> uledger(r, u).pidsLimit == old(uledger(r, u).pidsLimit)
+//@   ensures [held] old(has(r.owners, u.ContainerId)) ==> !((old(uledger(r, u).memLimit) != "" && uledger(r, u).memLimit != old(uledger(r, u).memLimit)) || (old(uledger(r, u).memReservation) != "" && uledger(r, u).memReservation != old(uledger(r, u).memReservation)) || (old(uledger(r, u).memSwapLimit) != "" && uledger(r, u).memSwapLimit != old(uledger(r, u).memSwapLimit)) || (old(uledger(r, u).memKernelLimit) != "" && uledger(r, u).memKernelLimit != old(uledger(r, u).memKernelLimit)) || (old(uledger(r, u).memTCPLimit) != "" && uledger(r, u).memTCPLimit != old(uledger(r, u).memTCPLimit)) || (old(uledger(r, u).memSwappiness) != "" && uledger(r, u).memSwappiness != old(uledger(r, u).memSwappiness)) || (old(uledger(r, u).memDisableOomKiller) != "" && uledger(r, u).memDisableOomKiller != old(uledger(r, u).memDisableOomKiller)) || (old(uledger(r, u).memUseHierarchy) != "" && uledger(r, u).memUseHierarchy != old(uledger(r, u).memUseHierarchy)) || (old(uledger(r, u).cpuShares) != "" && uledger(r, u).cpuShares != old(uledger(r, u).cpuShares)) || (old(uledger(r, u).cpuQuota) != "" && uledger(r, u).cpuQuota != old(uledger(r, u).cpuQuota)) || (old(uledger(r, u).cpuPeriod) != "" && uledger(r, u).cpuPeriod != old(uledger(r, u).cpuPeriod)) || (old(uledger(r, u).cpuRealtimeRuntime) != "" && uledger(r, u).cpuRealtimeRuntime != old(uledger(r, u).cpuRealtimeRuntime)) || (old(uledger(r, u).cpuRealtimePeriod) != "" && uledger(r, u).cpuRealtimePeriod != old(uledger(r, u).cpuRealtimePeriod)) || (old(uledger(r, u).cpusetCpus) != "" && uledger(r, u).cpusetCpus != old(uledger(r, u).cpusetCpus)) || (old(uledger(r, u).cpusetMems) != "" && uledger(r, u).cpusetMems != old(uledger(r, u).cpusetMems)) || (old(uledger(r, u).blockioClass) != "" && uledger(r, u).blockioClass != old(uledger(r, u).blockioClass)) || (old(uledger(r, u).rdtClass) != "" && uledger(r, u).rdtClass != old(uledger(r, u).rdtClass)) || (old(uledger(r, u).pidsLimit) != "" && uledger(r, u).pidsLimit != old(uledger(r, u).pidsLimit)))
 //@   loop 1 modifies mapkey(r.owners, u.ContainerId), uledger(r, u).hugepageLimits, map(uledger(r, u).hugepageLimits), resources.HugepageLimits, elems(resources.HugepageLimits)
 //@   loop 1 invariant 0 <= idx + 1 && idx + 1 <= len(ures(u).HugepageLimits)
 //@   loop 1 invariant (base(resources.HugepageLimits) == pre(base(resources.HugepageLimits)) || prefresh(resources.HugepageLimits)) && sep(base(resources.HugepageLimits), base(ures(u).HugepageLimits))
@@ -1333,7 +1334,7 @@ package adaptation
 //@      && (forall j string :: has(r.owners, j) && u.Linux != nil && u.Linux.Resources != nil ==> avoids(r.owners[j], u.Linux.Resources.Unified))
 
 //@ func result.update
-//@   props C05
+//@   props C01 C02 C05
 //@   requires wfCollect(r) && (forall i int :: 0 <= i && i < len(updates) ==> wfIn(updates[i]) && foreign(r, updates[i])) && sep(base(updates), base(r.reply.update))
 //@   modifies @writes
 //@   ensures [wf]      wfCollect(r)
@@ -1342,7 +1343,9 @@ package adaptation
 //@   ensures [once]    result == nil ==> (forall i int :: 0 <= i && i < len(updates) ==> has(r.updates, updates[i].ContainerId))
 //@   ensures [listed]  len(r.reply.update) >= old(len(r.reply.update)) && (forall i int :: 0 <= i && i < old(len(r.reply.update)) ==> r.reply.update[i] == old(r.reply.update[i]))
 //@   ensures [kept]    forall id string :: old(has(r.updates, id)) ==> has(r.updates, id) && r.updates[id] == old(r.updates[id])
+//@   ensures [claims]  forall j string :: old(has(r.owners, j)) ==> has(r.owners, j) && r.owners[j] == old(r.owners[j]) && !((old(r.owners[j].memLimit) != "" && r.owners[j].memLimit != old(r.owners[j].memLimit)) || (old(r.owners[j].memReservation) != "" && r.owners[j].memReservation != old(r.owners[j].memReservation)) || (old(r.owners[j].memSwapLimit) != "" && r.owners[j].memSwapLimit != old(r.owners[j].memSwapLimit)) || (old(r.owners[j].memKernelLimit) != "" && r.owners[j].memKernelLimit != old(r.owners[j].memKernelLimit)) || (old(r.owners[j].memTCPLimit) != "" && r.owners[j].memTCPLimit != old(r.owners[j].memTCPLimit)) || (old(r.owners[j].memSwappiness) != "" && r.owners[j].memSwappiness != old(r.owners[j].memSwappiness)) || (old(r.owners[j].memDisableOomKiller) != "" && r.owners[j].memDisableOomKiller != old(r.owners[j].memDisableOomKiller)) || (old(r.owners[j].memUseHierarchy) != "" && r.owners[j].memUseHierarchy != old(r.owners[j].memUseHierarchy)) || (old(r.owners[j].cpuShares) != "" && r.owners[j].cpuShares != old(r.owners[j].cpuShares)) || (old(r.owners[j].cpuQuota) != "" && r.owners[j].cpuQuota != old(r.owners[j].cpuQuota)) || (old(r.owners[j].cpuPeriod) != "" && r.owners[j].cpuPeriod != old(r.owners[j].cpuPeriod)) || (old(r.owners[j].cpuRealtimeRuntime) != "" && r.owners[j].cpuRealtimeRuntime != old(r.owners[j].cpuRealtimeRuntime)) || (old(r.owners[j].cpuRealtimePeriod) != "" && r.owners[j].cpuRealtimePeriod != old(r.owners[j].cpuRealtimePeriod)) || (old(r.owners[j].cpusetCpus) != "" && r.owners[j].cpusetCpus != old(r.owners[j].cpusetCpus)) || (old(r.owners[j].cpusetMems) != "" && r.owners[j].cpusetMems != old(r.owners[j].cpusetMems)) || (old(r.owners[j].blockioClass) != "" && r.owners[j].blockioClass != old(r.owners[j].blockioClass)) || (old(r.owners[j].rdtClass) != "" && r.owners[j].rdtClass != old(r.owners[j].rdtClass)) || (old(r.owners[j].pidsLimit) != "" && r.owners[j].pidsLimit != old(r.owners[j].pidsLimit)))
 //@   loop 1 invariant 0 <= idx + 1 && idx + 1 <= len(updates)
+//@   loop 1 invariant forall j string :: old(has(r.owners, j)) ==> has(r.owners, j) && r.owners[j] == old(r.owners[j]) && !((old(r.owners[j].memLimit) != "" && r.owners[j].memLimit != old(r.owners[j].memLimit)) || (old(r.owners[j].memReservation) != "" && r.owners[j].memReservation != old(r.owners[j].memReservation)) || (old(r.owners[j].memSwapLimit) != "" && r.owners[j].memSwapLimit != old(r.owners[j].memSwapLimit)) || (old(r.owners[j].memKernelLimit) != "" && r.owners[j].memKernelLimit != old(r.owners[j].memKernelLimit)) || (old(r.owners[j].memTCPLimit) != "" && r.owners[j].memTCPLimit != old(r.owners[j].memTCPLimit)) || (old(r.owners[j].memSwappiness) != "" && r.owners[j].memSwappiness != old(r.owners[j].memSwappiness)) || (old(r.owners[j].memDisableOomKiller) != "" && r.owners[j].memDisableOomKiller != old(r.owners[j].memDisableOomKiller)) || (old(r.owners[j].memUseHierarchy) != "" && r.owners[j].memUseHierarchy != old(r.owners[j].memUseHierarchy)) || (old(r.owners[j].cpuShares) != "" && r.owners[j].cpuShares != old(r.owners[j].cpuShares)) || (old(r.owners[j].cpuQuota) != "" && r.owners[j].cpuQuota != old(r.owners[j].cpuQuota)) || (old(r.owners[j].cpuPeriod) != "" && r.owners[j].cpuPeriod != old(r.owners[j].cpuPeriod)) || (old(r.owners[j].cpuRealtimeRuntime) != "" && r.owners[j].cpuRealtimeRuntime != old(r.owners[j].cpuRealtimeRuntime)) || (old(r.owners[j].cpuRealtimePeriod) != "" && r.owners[j].cpuRealtimePeriod != old(r.owners[j].cpuRealtimePeriod)) || (old(r.owners[j].cpusetCpus) != "" && r.owners[j].cpusetCpus != old(r.owners[j].cpusetCpus)) || (old(r.owners[j].cpusetMems) != "" && r.owners[j].cpusetMems != old(r.owners[j].cpusetMems)) || (old(r.owners[j].blockioClass) != "" && r.owners[j].blockioClass != old(r.owners[j].blockioClass)) || (old(r.owners[j].rdtClass) != "" && r.owners[j].rdtClass != old(r.owners[j].rdtClass)) || (old(r.owners[j].pidsLimit) != "" && r.owners[j].pidsLimit != old(r.owners[j].pidsLimit)))
 //@   loop 1 invariant r != nil && wfUpdates(r) && wfReq(r) && wfRO(r.owners) && (forall j string :: has(r.owners, j) ==> wfOwners(r.owners[j])) && sep(base(updates), base(r.reply.update))
 //@   loop 1 invariant forall j string :: has(r.owners, j) && has(r.updates, j) ==> avoids(r.owners[j], r.updates[j].Linux.Resources.Unified)
 //@   loop 1 invariant forall j string :: has(r.owners, j) && r.request.update != nil ==> avoids(r.owners[j], r.request.update.LinuxResources.Unified)
@@ -1609,6 +1612,9 @@ package adaptation
 //@   ensures [nonzero]  result.2 == nil ==> (pods > 0 ==> result.0 > 0) && (ctrs > 0 ==> result.1 > 0)
 //@   ensures [error]    result.2 != nil ==> result.0 == pods && result.1 == ctrs
 //@   ensures [passthru] err == nil ==> true
+// "proportionally smaller chunks": on success each kind's count is at most the floor (half of the
+// minimum message of 8 objects) or at most the count scaled by maximum/rejected length
+//@   ensures [proportional] result.2 == nil ==> (let mx = callret("(*github.com/containerd/ttrpc.OversizedMessageErr).MaximumLength", ncalls("(*github.com/containerd/ttrpc.OversizedMessageErr).MaximumLength") - 1, 0) in (let rj = callret("(*github.com/containerd/ttrpc.OversizedMessageErr).RejectedLength", ncalls("(*github.com/containerd/ttrpc.OversizedMessageErr).RejectedLength") - 1, 0) in (result.0 <= 4 || result.0 * rj <= pods * mx) && (result.1 <= 4 || result.1 * rj <= ctrs * mx)))
 
 //@ template syncTail(L, C, G)
 //@   ensures [$L.tail]  result.1 == nil && $G ==> ncalls($C) > old(ncalls($C))
@@ -1629,6 +1635,7 @@ package adaptation
 //@   modifies calls("multiplex.Mux.Close"), calls("(*github.com/containerd/ttrpc.Client).Close"), calls("(*github.com/containerd/ttrpc.Server).Close"), calls("net.Listener.Close")
 //@   modifies calls("google.golang.org/grpc/status.Code"), calls("errors.As"), calls("(*github.com/containerd/ttrpc.OversizedMessageErr).MaximumLength"), calls("(*github.com/containerd/ttrpc.OversizedMessageErr).RejectedLength")
 //@   ensures [closed] result.1 != nil ==> p.closed && result.0 == nil
+//@   ensures [unlocked] !held(p.Mutex) && cfgLockFree()
 //@ apply syncTail(ttrpc, "api.PluginService.Synchronize", p.impl.wasmImpl == nil)
 //@ apply syncTail(wasm, "api.Plugin.Synchronize", p.impl.wasmImpl != nil)
 //@   loop 1 invariant base(podsToSend) == base(pods) && off(podsToSend) >= off(pods) && off(podsToSend) + len(podsToSend) == off(pods) + len(pods) && cap(podsToSend) >= len(podsToSend)
